@@ -4,7 +4,7 @@ TLC: spec/Merge.tla.  A case = (runtime tree, stubs tree) over the names a, b (c
 for every case the spec runs the loader/merger machine once per (placement, discovery order) - ten
 runs - and evaluates the clauses of the property on each run and across the runs.
    Merge_gen.cfg     clauses asserted on the clean domain (TLC must verify them) + every case emitted
-   Merge_defect.cfg  one run per documented defect class: TLC must REPORT the clause violated there
+   Merge_defect.cfg  one case per documented defect class, guard off, -continue: TLC must REPORT each Defect* violated
 Binding: every emitted case is written to disk in all five placements and both listing orders and
 loaded by the real Griffe (listing order injected by wrapping os.walk / Path.iterdir, merge_stubs and
 Alias.resolve_target tapped in the harness process):
@@ -28,11 +28,11 @@ from gverif.props import c19_world as w
 
 # defect class of the spec -> invariant TLC must report violated when the clean-domain guard is off
 DEFECTS = {
-    "alias": "NeverResolves",
-    "raise": "NeverRaises",
-    "sov": "PrefersStubTypes",
-    "ovomis": "MismatchUntouched",
-    "ovoself": "SameForAllOrdersAndPlacements",
+    "alias": "DefectAliasResolved",
+    "raise": "DefectRaises",
+    "sov": "DefectStubOverloadsLost",
+    "ovomis": "DefectOverloadsOnNonFunction",
+    "ovoself": "DefectPlacementDependent",
 }
 DOMAIN = {"quick": "quick", "thorough": "wide"}
 _G = {}
@@ -86,17 +86,15 @@ def tlc_all(run: Run, tier: str):
     dom = DOMAIN[tier]
     jobs = {"gen": lambda: tlc.run("Merge", "Merge_gen.cfg", constants={"DOM": dom}, workers=4 if tier == "quick" else 8,
                                    timeout=3000, heap="6g")}
-    for tag, inv in DEFECTS.items():
-        jobs["defect-" + tag] = (lambda tag=tag, inv=inv: tlc.run(
-            "Merge", "Merge_defect.cfg", constants={"DOM": "one", "ONLY": tag, "INV": inv}, workers=1, timeout=900))
+    jobs["defects"] = lambda: tlc.run("Merge", "Merge_defect.cfg", workers=1, timeout=900, extra=["-continue"])
     with ThreadPoolExecutor(len(jobs)) as ex:
         futs = {name: ex.submit(fn) for name, fn in jobs.items()}
         res = {name: f.result() for name, f in futs.items()}
     gen = tlc.must(res["gen"])            # clean domain verified: no invariant may be violated under the guard
     run.add_tlc(gen)
+    r = tlc.must(res["defects"], allow_violations=True)
+    run.add_tlc(r)
     for tag, inv in DEFECTS.items():
-        r = tlc.must(res["defect-" + tag], allow_violations=True)
-        run.add_tlc(r)
         if inv not in r.violated:
             die(f"Merge.tla no longer exhibits defect class '{tag}': TLC did not report {inv} violated (violated={r.violated})")
     return gen
@@ -105,8 +103,8 @@ def tlc_all(run: Run, tier: str):
 def main(tier: str, replay: str | None = None):
     ensure_repo()
     run = Run("C19", tier)
-    run.rule = ("Merge.tla: cells = canonical (runtime kind, stub kind, presence bits, inner member kinds) combinations; quick: every cell alone, "
-                "every kinds-only cell next to 5 context cells, module docstring modes; thorough: every cell x 6 context cells x 2 docstring modes. "
+    run.rule = ("Merge.tla: cells = canonical (runtime kind, stub kind, presence bits, inner member kinds) combinations; quick: every cell with at most one group of presence bits off default alone, "
+                "every kinds-only cell next to 3 context cells, module docstring modes; thorough: every cell x 6 context cells x 2 docstring modes. "
                 "Each case x 5 placements x 2 listing orders is replayed.  Non-trivial = the stubs side defines or overloads at least one name and "
                 "some name/inner name is present on a side; distinct by (cell a, cell b, mdoc).")
     procs = max(2, min(12, (os.cpu_count() or 4) - 4))
